@@ -181,6 +181,59 @@ Theorem C04_fft_inout_counts : forall (C : CNum) (S : SNum C) unit_fn (s : @fsta
                   Ok (s', (xio_input_frames_next (fs_ctl s), xio_output_frames_max (fs_ctl s)), outs).
 Proof. intros C S. exact (@xio_counts C S). Qed.
 
+(** ** binary64 (Flocq): FastFixedIn's output_frames_next() never exceeds output_frames_max(), for *every* binary64 state whose two
+    ratios lie in [0, original*max] (what the generated accept test of set_resample_ratio enforces), overflow and the saturating
+    cast included.  Proofs/GettersB.v: rounding is monotone, so are x -> c*x, x -> x+10 and the cast. *)
+From Flocq Require Import Core BinarySingleNaN.
+From Rubato.Proofs Require Import RatioBounds GettersB.
+
+Theorem C04_fast_in_next_le_max_B64 : forall (st : @FastFixedIn Floats.CB),
+  let orig := FastFixedIn_resample_ratio_original st in
+  let maxrel := FastFixedIn_max_relative_ratio st in
+  let hi := Bmult mode_NE orig maxrel in
+  let r := FastFixedIn_resample_ratio st in
+  let g := FastFixedIn_target_ratio st in
+  (0 <= FastFixedIn_chunk_size st < 2 ^ 53)%Z ->
+  is_finite hi = true -> (bpow radix2 (-1021) <= B2R hi)%R ->
+  is_finite r = true -> is_finite g = true ->
+  (0 <= B2R r <= B2R hi)%R -> (0 <= B2R g <= B2R hi)%R ->
+  (@fi_output_frames_next Floats.CB st <= @fi_output_frames_max Floats.CB st)%Z.
+Proof. exact fi_next_le_max_B64. Qed.
+
+Theorem C04_fast_in_next_le_max_accepted_B64 : forall (st : @FastFixedIn Floats.CB),
+  let orig := FastFixedIn_resample_ratio_original st in
+  let maxrel := FastFixedIn_max_relative_ratio st in
+  ctor_ok orig maxrel ->
+  (0 <= FastFixedIn_chunk_size st < 2 ^ 53)%Z ->
+  (bpow radix2 (-1021) <= B2R (hi64 orig maxrel))%R ->
+  @fi_set_ratio_accept Floats.CB st (FastFixedIn_resample_ratio st) = true ->
+  @fi_set_ratio_accept Floats.CB st (FastFixedIn_target_ratio st) = true ->
+  (@fi_output_frames_next Floats.CB st <= @fi_output_frames_max Floats.CB st)%Z.
+Proof. exact fi_next_le_max_accepted_B64. Qed.
+
+(** the same for SincFixedIn at any chunk size up to the maximum *)
+Theorem C04_sinc_in_next_le_max_B64 : forall (st : @SincFixedIn Floats.CB),
+  let orig := SincFixedIn_resample_ratio_original st in
+  let maxrel := SincFixedIn_max_relative_ratio st in
+  let hi := Bmult mode_NE orig maxrel in
+  let r := SincFixedIn_resample_ratio st in
+  let g := SincFixedIn_target_ratio st in
+  (0 <= SincFixedIn_chunk_size st <= SincFixedIn_max_chunk_size st)%Z ->
+  (SincFixedIn_max_chunk_size st < 2 ^ 53)%Z ->
+  is_finite hi = true -> (bpow radix2 (-1021) <= B2R hi)%R ->
+  is_finite r = true -> is_finite g = true ->
+  (0 <= B2R r <= B2R hi)%R -> (0 <= B2R g <= B2R hi)%R ->
+  (@si_calc_needed_len Floats.CB st <= @si_output_frames_max Floats.CB st)%Z.
+Proof. exact si_next_le_max_B64. Qed.
+
+(* non-vacuity: original ratio 1, max relative ratio 2, a ratio at the upper bound is accepted *)
+Theorem C04_fast_in_next_le_max_B64_example :
+  let orig := one64 in
+  let maxrel := Floats.b_lit 53 1024 1 1 in
+  ctor_ok orig maxrel /\ (bpow radix2 (-1021) <= B2R (hi64 orig maxrel))%R /\
+  accept64 orig maxrel (hi64 orig maxrel) = true.
+Proof. exact fi_next_le_max_example. Qed.
+
 Print Assumptions C04_fast_in_counts_R.
 Print Assumptions C04_fast_out_counts_R.
 Print Assumptions C04_fast_in_next_le_max_R.
@@ -200,3 +253,6 @@ Print Assumptions C04_sinc_out_next_le_max_R.
 Print Assumptions C04_f32_quotients_exact.
 Print Assumptions C04_fft_out_counts_binary.
 Print Assumptions C04_fft_in_counts_binary.
+Print Assumptions C04_fast_in_next_le_max_B64.
+Print Assumptions C04_fast_in_next_le_max_accepted_B64.
+Print Assumptions C04_sinc_in_next_le_max_B64.
